@@ -26,7 +26,12 @@ CONSTANTS
 
 FaultAll == {"none", "wrongType", "missingFeatureDim", "missingFeatureDimOneVar", "missingSampleDim", "extraDim", "renamedDim",
              "shiftedCoord", "revaluedCoord", "permutedCoordSameValues", "droppedVar", "extraVar",
-             "wrongListLen", "datasetForArray"}
+             "wrongListLen", "datasetForArray", "reorderedVars", "transposedArg"}
+
+\* mutations that present the SAME data (every value at its own labels): the call may be answered or,
+\* where the statement does not classify it, refused - but an answer must be the documented projection,
+\* i.e. equal to the answer for the unmutated argument
+SameData == {"none", "extraVar", "permutedCoordSameValues", "datasetForArray", "reorderedVars", "transposedArg"}
 
 VARIABLES lay, pred, phase
 vars == <<lay, pred, phase>>
@@ -85,12 +90,15 @@ Verdict(l, f) ==
       [] f = "extraVar" -> "answered"                    \* a Dataset carrying additional variables is a valid call
       [] f = "permutedCoordSameValues" -> "either"       \* same labels in another order: not classified
       [] f = "datasetForArray" -> "either"               \* same data wrapped in a one-variable Dataset: not classified
+      [] f = "reorderedVars" -> "either"                 \* the Dataset's variables listed in another order: not classified
+      [] f = "transposedArg" -> "either"                 \* the argument's dimensions in another order: not classified
 
 FaultApplies(l, f) ==
     CASE f = "missingFeatureDimOneVar" -> l.kind = "DS2same"
       [] f \in {"droppedVar", "extraVar"} -> l.kind \in {"DS2same", "DS2diff"} \/ (f = "extraVar" /\ l.kind = "DS1")
       [] f = "wrongListLen" -> TRUE
       [] f = "datasetForArray" -> l.kind = "DA"
+      [] f = "reorderedVars" -> l.kind \in {"DS2same", "DS2diff"}
       [] OTHER -> TRUE
 
 Admissible(l) ==
@@ -121,7 +129,8 @@ Init ==
           /\ Admissible(lay)
 
 Fit == /\ phase = "cfg"
-       /\ pred' = [Predict(lay) EXCEPT !.container = Container(lay)] @@ [verdict |-> Verdict(lay, lay.fault)]
+       /\ pred' = [Predict(lay) EXCEPT !.container = Container(lay)] @@ [verdict |-> Verdict(lay, lay.fault),
+                                                                          sameData |-> lay.fault \in SameData]
        /\ phase' = "done"
        /\ UNCHANGED lay
 
@@ -158,4 +167,8 @@ C17_FaultsRefused ==
                                "shiftedCoord", "revaluedCoord", "droppedVar", "wrongListLen"})
                    => pred.verdict = "refused"
             /\ (lay.fault \in {"none", "extraVar"}) => pred.verdict = "answered"
+
+\* C17: a call that presents the same data is never one the statement lists as a fault; whenever such a
+\* call returns, the harness compares the answer with the answer for the unmutated argument
+C17_SameDataIsNoListedFault == Done => (pred.sameData => pred.verdict # "refused")
 =============================================================================
